@@ -89,6 +89,7 @@ func programsN(thorough bool, n int) []program {
 			return output{texts: t, verdicts: v}
 		}})
 	}
+	out = append(out, program{"api", apiProgram})
 	out = append(out, program{"mixed", mixedProgram})
 	return out
 }
@@ -107,8 +108,11 @@ func stageA(c *vf.Ctx, progs []program) {
 		f2 := fingerprint()
 		c.Eval(2)
 		c.State(3)
-		for _, n := range diff(f0, f1) {
-			c.Tally("first_use_write:"+n, 1) // lazy initialisation; stage C runs it concurrently from a cold process
+		if d := diff(f0, f1); len(d) > 0 {
+			// the first build of this program in this process wrote to shared state: an unsynchronised lazily
+			// filled table or cache is a data race as soon as two builds use it for the first time together
+			// (synchronisation primitives themselves are opaque to the fingerprint)
+			c.Violation("shared-state-written-on-first-use|"+strings.Join(d, ","), fmt.Sprintf("the first build of %s in this process changed shared state reachable from: %s", p.name, strings.Join(d, ", ")), payload{Stage: "A", A: p.name})
 		}
 		if d := diff(f1, f2); len(d) > 0 {
 			c.Violation("shared-state-written|"+strings.Join(d, ","), fmt.Sprintf("building %s a second time changed shared state reachable from: %s", p.name, strings.Join(d, ", ")), payload{Stage: "A", A: p.name})
@@ -457,10 +461,42 @@ func raceMain() {
 
 // ----------------------------------------------------------------
 
+// apiCoverage runs every program once with the accounting on and reports which exported entry points of
+// the library the programs reach (the sites are listed by the overlay generator).
+func apiCoverage(c *vf.Ctx, progs []program) {
+	if c.Idx != 0 {
+		return
+	}
+	verifrt.CoverOn = true
+	for _, p := range progs {
+		p.run()
+	}
+	verifrt.CoverOn = false
+	var all []string
+	if b, err := os.ReadFile(os.Getenv("VERIF_GEN") + "/ovgen_meta.json"); err == nil {
+		var meta struct {
+			CoverSites []string `json:"cover_sites"`
+		}
+		json.Unmarshal(b, &meta)
+		all = meta.CoverSites
+	}
+	var missing []string
+	for _, s := range all {
+		if verifrt.Covered[s] == 0 && strings.HasPrefix(s, ":") { // root package API
+			missing = append(missing, strings.TrimPrefix(s, ":"))
+		}
+	}
+	sort.Strings(missing)
+	c.Tally("api_entry_points_total", len(all))
+	c.Tally("api_entry_points_reached", len(verifrt.Covered))
+	c.Note(fmt.Sprintf("exported entry points of package gogen not reached by any program (%d): %s", len(missing), strings.Join(missing, " ")))
+}
+
 func run(c *vf.Ctx) {
 	progs := programs(c.Thorough())
 	c.Note(fmt.Sprintf("%d programs, %d package-level variables fingerprinted", len(progs), len(gogen.VerifAllGlobals())))
-	stageA(c, progs)
+	stageA(c, progs) // first: the worker process is still cold
+	apiCoverage(c, progs)
 	var idx int64
 	if !c.Thorough() {
 		// quick: 5-row programs; every program against itself, its successor and the mixed program; 1 preemption
@@ -517,8 +553,12 @@ func replay(raw json.RawMessage) (string, bool) {
 		if a == nil {
 			return "program not found: " + p.A, false
 		}
+		f0 := fingerprint()
 		a.run()
 		f1 := fingerprint()
+		if d := diff(f0, f1); len(d) > 0 {
+			return "the first build in this process changed shared state: " + strings.Join(d, ", "), true
+		}
 		a.run()
 		if d := diff(f1, fingerprint()); len(d) > 0 {
 			return "shared state changed: " + strings.Join(d, ", "), true
